@@ -130,7 +130,7 @@ def lexKth (s : Str) : List KRow := (readlines s).map lexKthLine
 
 /-- one physical line of a graph-DIMACS file as `_read_graph_dimacs_format` sees it -/
 inductive DRow where
-  /-- `l.strip()` is empty (the code then evaluates `l[0]`) -/
+  /-- `l.strip()` is empty -/
   | blank
   /-- first character `c` -/
   | comment
